@@ -285,11 +285,11 @@ def run_case(case):
 def codec_problem(node):
     """None when the tree is accepted by the real encoder and survives encode->decode under the strict comparator"""
     try:
-        frame = bytes(bytearray(_enc.protocolTreeNodeToBytes(node)))
+        frame = bytes(bytearray(WriteEncoder(_td).protocolTreeNodeToBytes(node)))
     except Exception as e:
         return ("not_encodable:%s" % type(e).__name__, "%r; offending: %s" % (e, find_bad_value(node)))
     try:
-        back = _dec.getProtocolTreeNode(bytearray(frame))
+        back = ReadDecoder(_td).getProtocolTreeNode(bytearray(frame))
     except Exception as e:
         return ("not_decodable:%s" % type(e).__name__, repr(e)[:200])
     exp = T.from_node(node)
